@@ -133,9 +133,14 @@ class ThreadHop:
             if thunk is None:
                 return
             try:
-                self._outbox.put((True, thunk()))
+                r_ = thunk()
+                thunk = None                # (nothing of the operation stays referenced by the idle helper)
+                self._outbox.put((True, r_))
+                r_ = None
             except BaseException as e:      # handed back to the waiting caller, traceback and all
+                thunk = None
                 self._outbox.put((False, e))
+                e = None
 
     def inside(self):
         import threading
